@@ -67,6 +67,14 @@ theorem side_prefilter_sound {s t : Seg} (hs : s.nondeg) (h : sameStrictSide s t
   obtain ⟨h1, h2⟩ := inter_sound' hs hp
   exact no_common_of_sameStrictSide h h1 h2
 
+/-- the candidate pairs of the bounding-box prefilter contain every pair of input segments that
+    intersect: restricting the calls of `segments_2d` to `boxPairs` loses no intersection point -/
+theorem prefilter_pairs_complete (segs : List Seg) (i j : Nat) (s t : Seg)
+    (hi : segs[i]? = some s) (hj : segs[j]? = some t) (hij : i < j) (hs : s.nondeg)
+    (h : inter s t ≠ []) : (i, j) ∈ boxPairs segs := by
+  have := mem_pairsFrom segs 0 i j s t hi hj hij ((boxesOverlapB_iff s t).mpr (prefilter_sound hs h))
+  simpa [boxPairs] using this
+
 /-! ### the subdivision -/
 
 /-- every returned edge lies inside the input segment it is mapped to (`argsort`), carries that
@@ -152,6 +160,45 @@ theorem split_parent_is_first (segs : List Seg) :
       ((g.p = e.p ∧ g.q = e.q) ∨ (g.p = e.q ∧ g.q = e.p)) → e.parent ≤ g.parent :=
   dedupEdges_first _ (preFrom_sorted segs 0)
 
+/-- `tag_info` is complete: every input segment that contains a returned edge contributes a piece
+    (before uniquification) that is this edge as an unordered pair, with that segment's index and tags -/
+theorem split_tag_info_complete (segs : List Seg) (hall : AllNondeg segs) :
+    ∀ e ∈ split segs, ∀ (i : Nat) (s : Seg), segs[i]? = some s →
+      OnSeg s.a s.b e.p → OnSeg s.a s.b e.q →
+      ∃ g ∈ preEdges segs, g.parent = i ∧ g.tags = s.tags ∧
+        ((g.p = e.p ∧ g.q = e.q) ∨ (g.p = e.q ∧ g.q = e.p)) := by
+  intro e he i s hi h1 h2
+  obtain ⟨k, t, hk, _, _, hpc⟩ := mem_preFrom segs 0 e (mem_split_pre he)
+  have hs := List.mem_of_getElem? hi
+  have ht := List.mem_of_getElem? hk
+  rcases edge_is_piece_of_container hall hs ht hpc h1 h2 with h | h
+  · obtain ⟨g, hg, a, b, c, d⟩ := preFrom_of_piece_idx segs 0 i s (e.p, e.q) hi h
+    exact ⟨g, hg, by omega, d, Or.inl ⟨a, b⟩⟩
+  · obtain ⟨g, hg, a, b, c, d⟩ := preFrom_of_piece_idx segs 0 i s (e.q, e.p) hi h
+    exact ⟨g, hg, by omega, d, Or.inr ⟨a, b⟩⟩
+
+/-- the union of the returned edges is exactly the union of the input segments -/
+theorem split_union_eq (segs : List Seg) (hall : AllNondeg segs) (q : Pt) :
+    (∃ e ∈ split segs, OnSeg e.p e.q q) ↔ (∃ s ∈ segs, OnSeg s.a s.b q) := by
+  constructor
+  · rintro ⟨e, he, hq⟩
+    obtain ⟨s, hk, _, _, _, _, hin⟩ := split_inside_parent_with_tags segs hall e he
+    exact ⟨s, List.mem_of_getElem? hk, hin q hq⟩
+  · rintro ⟨s, hs, hq⟩
+    obtain ⟨e, he, h, _⟩ := split_cover segs hall s hs q hq
+    exact ⟨e, he, h⟩
+
+/-- the early-return branch is consistent with the general path: when no two different input
+    segments have an intersection point, the general algorithm returns the input edges unchanged,
+    in order, each mapped to itself (`argsort = arange`) — exactly what the code returns early -/
+theorem split_no_intersection (segs : List Seg) (hall : AllNondeg segs) (hno : NoIsect segs) :
+    split segs = trivFrom 0 segs := by
+  have h1 : preEdges segs = trivFrom 0 segs :=
+    preFrom_trivial segs 0 (fun s hs => pieces_trivial hall hno hs)
+  unfold split
+  rw [h1]
+  exact dedupEdges_id (trivFrom_pairwise segs 0 hall hno)
+
 /-! ### non-vacuity: concrete inputs -/
 
 /-- an X-crossing with a fractional crossing point, a collinear overlap, a T-junction, a duplicate -/
@@ -181,5 +228,23 @@ example : inter ⟨(0, 0), (3, 1), []⟩ ⟨(0, 1), (3, 2), []⟩ = [] := by dec
 example : inter ⟨(0, 0), (3, 1), []⟩ ⟨(0, 1), (3, 0), []⟩ ≠ [] := by decide +kernel
 example : sameStrictSide ⟨(0, 0), (3, 1), []⟩ ⟨(0, 1), (3, 2), []⟩ := by
   unfold sameStrictSide; decide +kernel
+
+/-- `split_tag_info_complete` on data: the returned edge (0,0)-(3/2,1/2) (parent 0) also lies in input
+    segment 3 = (-3,-1)-(3,1); segment 3 contributes that piece with its own index and tags -/
+example : ∃ g ∈ preEdges exSegs, g.parent = 3 ∧ g.tags = [4] ∧ g.p = ((0, 0) : Pt) ∧ g.q = ((3/2, 1/2) : Pt) := by
+  decide +kernel
+
+/-- `split_union_eq` on data: the crossing point lies on an input segment and on a returned edge -/
+example : ∃ s ∈ exSegs, OnSeg s.a s.b ((3/2, 1/2) : Pt) :=
+  ⟨⟨(0, 0), (3, 1), [1]⟩, by decide +kernel, 1/2, by decide +kernel, by decide +kernel,
+    by decide +kernel, by decide +kernel⟩
+
+/-- the candidate pairs on the example (every intersecting pair is among them) -/
+example : boxPairs exSegs =
+    [(0, 1), (0, 2), (0, 3), (0, 5), (1, 2), (1, 3), (1, 5), (2, 3), (2, 4), (2, 5), (3, 5)] := by decide +kernel
+
+/-- hypothesis of `split_no_intersection` is satisfiable (two parallel segments and an isolated one) -/
+example : NoIsect [⟨(0, 0), (2, 1), [1]⟩, ⟨(0, 1), (2, 2), [2]⟩, ⟨(5, 5), (6, 7), [3]⟩] := by
+  decide +kernel
 
 end PorepyVerif.C29
